@@ -30,26 +30,26 @@ Check C14_always_newer : forall runid r,
   exists c, r_changed (view_row runid r) = Some c /\ (runid <= c)%Z.
 Print Assumptions C14_always_newer.
 
-Theorem C14_newer_dep_is_dirty : forall fuel runid w c f r mx seen chg,
+Theorem C14_newer_dep_is_dirty : forall fuel runid cyc w c f r mx seen chg,
   existsb (Nat.eqb f) seen = false ->
   r_failed r = None ->
   r_changed r = Some chg -> (mx < chg)%Z ->
-  is_dirty (S fuel) runid w c f r mx seen = Ret (VDirty, w, c, []).
+  is_dirty (S fuel) runid cyc w c f r mx seen = Ret (VDirty, w, c, []).
 Proof. exact is_dirty_newer. Qed.
-Check C14_newer_dep_is_dirty : forall fuel runid w c f r mx seen chg,
+Check C14_newer_dep_is_dirty : forall fuel runid cyc w c f r mx seen chg,
   existsb (Nat.eqb f) seen = false ->
   r_failed r = None ->
   r_changed r = Some chg -> (mx < chg)%Z ->
-  is_dirty (S fuel) runid w c f r mx seen = Ret (VDirty, w, c, []).
+  is_dirty (S fuel) runid cyc w c f r mx seen = Ret (VDirty, w, c, []).
 Print Assumptions C14_newer_dep_is_dirty.
 
 (* the two rules over the whole walk: a target with a recorded redo-ifcreate edge
    to a path that exists now, or with a recorded edge to //ALWAYS, is never
    found clean by a run that has not dealt with it yet -- whatever else is in
    its dependency list, whatever the other rows say, for every fuel *)
-Theorem C14_ifcreate_or_always_not_clean : forall fuel runid w c f r mx seen v w' c' evs chg,
+Theorem C14_ifcreate_or_always_not_clean : forall fuel runid cyc w c f r mx seen v w' c' evs chg,
   (0 < runid)%Z ->
-  is_dirty fuel runid w c f r mx seen = Ret (v, w', c', evs) ->
+  is_dirty fuel runid cyc w c f r mx seen = Ret (v, w', c', evs) ->
   chk_is_checked c runid r f = false ->
   r_changed r = Some chg -> (chg < runid)%Z ->
   (match r_checked r with Some k => k | None => 0 end < runid)%Z ->
@@ -58,9 +58,9 @@ Theorem C14_ifcreate_or_always_not_clean : forall fuel runid w c f r mx seen v w
       \/ (d_mode d = DModified /\ r_name (get_row (dbs w) (d_source d)) = always_name))) ->
   v <> VClean.
 Proof. exact ifcreate_or_always_not_clean. Qed.
-Check C14_ifcreate_or_always_not_clean : forall fuel runid w c f r mx seen v w' c' evs chg,
+Check C14_ifcreate_or_always_not_clean : forall fuel runid cyc w c f r mx seen v w' c' evs chg,
   (0 < runid)%Z ->
-  is_dirty fuel runid w c f r mx seen = Ret (v, w', c', evs) ->
+  is_dirty fuel runid cyc w c f r mx seen = Ret (v, w', c', evs) ->
   chk_is_checked c runid r f = false ->
   r_changed r = Some chg -> (chg < runid)%Z ->
   (match r_checked r with Some k => k | None => 0 end < runid)%Z ->
@@ -96,10 +96,10 @@ Proof. vm_compute. reflexivity. Qed.
 Theorem C14_not_before : forall runid w rk S fuel g l,
   forallb (quiet_row_b runid w rk S) S = true -> In g S -> (rk g < fuel)%nat ->
   (forall chg, r_changed (ld runid w g) = Some chg -> (chg <= runid)%Z) ->
-  exists l' evs, is_dirty fuel runid w (ChkMem l) g (ld runid w g) runid nil = Ret (VClean, w, ChkMem l', evs).
+  exists l' evs, is_dirty fuel runid nil w (ChkMem l) g (ld runid w g) runid nil = Ret (VClean, w, ChkMem l', evs).
 Proof. exact quiet_b_all_clean. Qed.
 Check C14_not_before : forall runid w rk S fuel g l,
   forallb (quiet_row_b runid w rk S) S = true -> In g S -> (rk g < fuel)%nat ->
   (forall chg, r_changed (ld runid w g) = Some chg -> (chg <= runid)%Z) ->
-  exists l' evs, is_dirty fuel runid w (ChkMem l) g (ld runid w g) runid nil = Ret (VClean, w, ChkMem l', evs).
+  exists l' evs, is_dirty fuel runid nil w (ChkMem l) g (ld runid w g) runid nil = Ret (VClean, w, ChkMem l', evs).
 Print Assumptions C14_not_before.
